@@ -132,7 +132,10 @@ func getArrayPrototype() *Value {
 					clone := make([]*Cell, len(this.Array))
 					for i, item := range this.Array {
 						clone[i] = &Cell{}
-						copyValue(item, clone[i])
+						// an element that can't be copied (a function) can't be sorted
+						if _, err := copyValue(item, clone[i]); err != nil {
+							return nil, err
+						}
 					}
 
 					slices.SortStableFunc(clone, func(a *Cell, b *Cell) int {
